@@ -46,7 +46,7 @@ GSpec == GInit /\ [][GNext]_gvars
 (* state per case; the driver renders the case as URL text.                 *)
 CONSTANT MaxOdd
 UIs    == {"none", "user", "userpw", "enc", "crlf", "emptypw", "long"}
-HostFs == {"plain", "upper", "idn", "ip4", "ip6", "ip6long"}
+HostFs == {"plain", "upper", "idn", "ip4", "ip6", "ip6long", "pctcrlf", "pcttab"}
 PortFs == {"none", "default", "other", "padded", "xdef"}
 PathFs == {"p", "empty", "slash", "space", "crlf", "delims", "uni", "dots", "pct", "bslash", "semi"}
 QueryFs == {"none", "kv", "space", "crlf", "uni", "amp", "qmark", "hashenc"}
